@@ -30,6 +30,10 @@ type Case struct {
 	// (i.e. typically in the middle of a batch being announced) a new
 	// subscriber asks for the backlog above (that event's height - Back).
 	MidProbes []MidProbe `json:"mid_probes,omitempty"`
+	// FilterPrefill (checkpointed unit): the filter headers already
+	// committed when the client starts (-1: only the genesis entry; 0: as
+	// many as block headers).
+	FilterPrefill int `json:"filter_prefill,omitempty"`
 }
 
 type MidProbe struct {
@@ -69,6 +73,8 @@ type commit struct {
 type oracle struct {
 	v   *kit.Verdict
 	w   *kit.World
+	// initial: what was committed before the client started
+	initial []chainhash.Hash
 	seq atomic.Int64
 
 	mu      sync.Mutex
@@ -340,7 +346,9 @@ func (o *oracle) check(s *netsim.Sim, when string) {
 	o.checked = len(events)
 
 	// (1) mirror: replay everything received so far.
-	replay := []chainhash.Hash{o.w.Genesis.Hash}
+	// (the subscriber starts with what was committed before the client
+	// started: the genesis block, or the pre-filled filter-header chain)
+	replay := append([]chainhash.Hash{}, o.initial...)
 	for i, e := range events {
 		h := e.hdr.BlockHash()
 		if e.conn {
@@ -459,6 +467,37 @@ func genCase(t *rapid.T) Case {
 	return c
 }
 
+// genCaseBig: chains of 1001-2300 blocks whose block headers are (almost all)
+// stored already while the filter headers end anywhere below: the filter
+// headers are then committed by the checkpointed path, in whole intervals and
+// with a partial first interval, and every block must still be announced
+// exactly once, in order, after its commit.
+func genCaseBig(t *rapid.T) Case {
+	sc := netsim.GenScript(t, netsim.GenOpts{MinBase: 1001, MaxBase: 2300, MaxFuture: 20, MaxBranches: 3, MaxBLen: 20, MaxPeers: 3,
+		MinEvents: 2, MaxEvents: 10, Checkpoints: false, Prefill: false, ForkBias: true, Tx: true, FixedParams: true})
+	sc.Prefill = sc.World.Base - kit.Pick(t, "blag", []int{0, 0, 1, 7, 40})
+	c := Case{Script: sc}
+	switch kit.Uni(t, "fpre", 4) {
+	case 0:
+		c.FilterPrefill = -1
+	case 1:
+		c.FilterPrefill = rapid.IntRange(1, sc.Prefill).Draw(t, "fp")
+	default:
+		// a partial first interval
+		c.FilterPrefill = max(1, sc.Prefill-rapid.IntRange(1001, 2100).Draw(t, "fplag"))
+		if kit.Uni(t, "fpmid", 2) == 0 {
+			c.FilterPrefill = max(1, (sc.Prefill/1000)*1000-rapid.IntRange(1, 999).Draw(t, "fpin"))
+		}
+	}
+	c.Probes = rapid.SliceOfN(rapid.Custom(func(t *rapid.T) Probe {
+		return Probe{After: rapid.IntRange(0, 9).Draw(t, "after"), Back: kit.Pick(t, "back", []int{0, 1, 5, 400, 1000, 1500})}
+	}), 0, 3).Draw(t, "probes")
+	c.MidProbes = rapid.SliceOfN(rapid.Custom(func(t *rapid.T) MidProbe {
+		return MidProbe{At: rapid.IntRange(1, 2000).Draw(t, "at"), Back: kit.Pick(t, "mback", []int{0, 3, 8, 600})}
+	}), 0, 3).Draw(t, "midprobes")
+	return c
+}
+
 func runCase(t *testing.T, c Case) kit.Verdict {
 	var v kit.Verdict
 	w := kit.BuildWorld(c.Script.World)
@@ -469,7 +508,19 @@ func runCase(t *testing.T, c Case) kit.Verdict {
 	for _, p := range c.Probes {
 		o.probes[p.After] = append(o.probes[p.After], p.Back)
 	}
-	res := netsim.Exec(t, c.Script, netsim.Config{WrapDB: o.wrap, AfterStart: o.subscribe}, o)
+	o.initial = []chainhash.Hash{w.Genesis.Hash}
+	if ft := c.Script.Prefill; ft > 0 {
+		if c.FilterPrefill != 0 && c.FilterPrefill < ft {
+			ft = max(0, c.FilterPrefill)
+		}
+		for h := 1; h <= ft; h++ {
+			o.initial = append(o.initial, w.Node(0, h).Hash)
+		}
+	}
+	res := netsim.Exec(t, c.Script, netsim.Config{WrapDB: o.wrap, AfterStart: o.subscribe, PrefillFilterTip: c.FilterPrefill}, o)
+	if c.Script.World.Base >= 1000 {
+		v.Class("world:checkpointed")
+	}
 	if res.Harness != "" {
 		v.Harness = res.Harness
 	}
@@ -501,6 +552,10 @@ func runCase(t *testing.T, c Case) kit.Verdict {
 		v.Class("has-disconnects")
 	}
 	return v
+}
+
+func TestC19Big(t *testing.T) {
+	kit.RunProp(t, kit.Prop[Case]{ID: "C19", Name: "netsim-checkpointed", Gen: genCaseBig, Run: runCase})
 }
 
 func TestC19(t *testing.T) {
